@@ -332,7 +332,12 @@ def make_ds(ns_core, w, temp=False):
             self.title = "c12"
             self.path = "none"
             self.format = "dict"
-            self.config = {"filtering": {"enable filters": w.enable},
+            self.config = {"filtering": {
+                "enable filters": w.enable,
+                # the flag says nothing about the filter array at hand
+                # (features added or flag switched after the last
+                # apply_filter): symbolic, shared by the three worlds
+                "remove invalid events": Engine.cur.bool("remove_invalid")},
                            "setup": ({} if w.flow is None
                                      else {"flow rate": w.flow}),
                            "experiment": {}, "calculation": {}}
@@ -987,6 +992,9 @@ def _entry(p, vals, x, y, selk, enable=True):
     ds.filter.manual[:] = selk
     ds.apply_filter()
     kind = p["kind"]
+    if kind == "stats" and vals.get("remove_invalid"):
+        # flag switched on after the filter was applied (stale filter)
+        ds.config["filtering"]["remove invalid events"] = True
     if kind == "stats":
         from dclab import statistics
         h, v = statistics.get_statistics(ds, features=["deform"])
